@@ -196,12 +196,17 @@ func (g *gen) recoverCheck(where string, bm, mm map[string][]byte, live map[stri
 			g.r.Fail("recover-different-mapping@"+where, "rebuilt index maps "+kv[0]+" elsewhere", lv, kv[1], g.r.CaseOps())
 		}
 	}
-	for _, ref := range mustHave {
+	// every acknowledged row must be back; the blobs themselves are fetched through the new storage
+	// (all of them when there are few or in the thorough tier, else the latest and a random dozen)
+	all := len(mustHave) <= 16 || g.r.Thorough()
+	for i, ref := range mustHave {
 		if _, ok := rebuilt[ref]; !ok {
 			g.r.Fail("recover-row-lost@"+where, "acknowledged blob "+ref+" is not in the rebuilt index", live[ref], "absent", g.r.CaseOps())
 			continue
 		}
-		g.checkFetch(w, "recover-"+where, ref, true)
+		if all || i >= len(mustHave)-2 || g.r.R.Intn(len(mustHave)) < 12 {
+			g.checkFetch(w, "recover-"+where, ref, true)
+		}
 	}
 }
 
